@@ -63,6 +63,18 @@ type c09Cfg struct {
 	// ExpireNS: a cookie-expire below one second, in nanoseconds (Expire is 0 then) — what a bare
 	// number in a configuration file amounts to
 	ExpireNS int `json:"cookie_expire_ns,omitempty"`
+	// Form: the session is created by the htpasswd sign-in form instead of the provider (c09_more_test.go)
+	Form bool `json:"htpasswd_form_login,omitempty"`
+	// Provider: "" = OIDC; "keycloak" = a provider without refresh whose re-validation is a call to
+	// its validation endpoint (c09_more_test.go)
+	Provider string `json:"provider,omitempty"`
+	// Tentative: cookie-refresh is not below cookie-expire; explored only if validation admits it
+	Tentative bool `json:"refresh_not_below_expire,omitempty"`
+	// IatSkew: the provider's clock differs from the proxy's: every ID token (login and refresh)
+	// carries iat / auth_time that many seconds away from the proxy's time (c09_more_test.go)
+	IatSkew int `json:"id_token_iat_skew_s,omitempty"`
+	// CSRFExpire: --cookie-csrf-expire in seconds (0: flag not given)
+	CSRFExpire int `json:"cookie_csrf_expire_s,omitempty"`
 }
 
 func (g c09Cfg) store() string {
@@ -83,6 +95,7 @@ func (g c09Cfg) String() string {
 	if g.ExpireNS > 0 {
 		big += fmt.Sprintf(" expire=%dns", g.ExpireNS)
 	}
+	big += g.moreString()
 	return fmt.Sprintf("expire=%ds refresh=%ds %s idp-refresh=%v token-ttl=%ds%s", g.Expire, g.Refresh, g.store(), g.IdPRefresh, g.TokTTL, big)
 }
 
@@ -135,6 +148,9 @@ func c09Configs(quick bool) []c09Cfg {
 	for _, redis := range []bool{false, true} {
 		out = append(out, c09Cfg{ExpireNS: 3600, Redis: redis, IdPRefresh: true, TokTTL: c09LongTTL})
 	}
+	// sessions of the htpasswd sign-in form, a provider that re-validates by a call and cannot refresh,
+	// cookie-refresh not below cookie-expire
+	out = append(out, c09MoreConfigs(quick)...)
 	return out
 }
 
@@ -252,10 +268,15 @@ func c09Allowed(alpha []c09Op, n *c09Node, last bool) []c09Op {
 type c09Cred struct {
 	Hdr    string
 	T      int64 // model: issue time, ms from Epoch
+	T0     int64 // model: issue time under the reading in which a re-validation is no refresh (== T otherwise)
 	TokExp int64 // model: expiry of the access token issued with it, ms from Epoch
 	Legit  bool  // issued by a login or a provider-granted refresh
-	Stamp  string
-	MaxAge int
+	// ByRefusal: set by a response that refused the request (the refusal also told the browser to
+	// drop it; only a replay by hand presents it)
+	ByRefusal bool
+	Stamp     string
+	MaxAge    int
+	Set       int64 // when the response that carried it was given
 }
 
 type c09Fail struct {
@@ -265,28 +286,38 @@ type c09Fail struct {
 
 // c09Res is the observation and verdict of one step.
 type c09Res struct {
-	Op        string    `json:"op"`
-	NowMs     int64     `json:"now_ms"`
-	Presented int       `json:"presented"` // index of the credential presented; -1 none; -2 cookies that are no remembered credential
-	Served    bool      `json:"served"`
-	Status    int       `json:"status"`
-	Issued    int       `json:"issued"` // index of the credential the response set; -1 none
-	Grants    int       `json:"refresh_grants"`
-	TokenFail int       `json:"failed_provider_calls"`
-	Class     string    `json:"class"`
-	Detail    string    `json:"detail,omitempty"`
-	Fails     []c09Fail `json:"fails,omitempty"`
-	ntKey     string
-	maxAges   int
-	ttls      int
-	oldDied   bool
-	jitter    bool
+	Op          string    `json:"op"`
+	NowMs       int64     `json:"now_ms"`
+	Presented   int       `json:"presented"` // index of the credential presented; -1 none; -2 cookies that are no remembered credential
+	Served      bool      `json:"served"`
+	Status      int       `json:"status"`
+	Issued      int       `json:"issued"` // index of the credential the response set; -1 none
+	Grants      int       `json:"refresh_grants"`
+	Vals        int       `json:"provider_validations,omitempty"` // calls to the validation endpoint answered 200
+	TokenFail   int       `json:"failed_provider_calls"`
+	Class       string    `json:"class"`
+	Detail      string    `json:"detail,omitempty"`
+	Fails       []c09Fail `json:"fails,omitempty"`
+	ntKey       string
+	maxAges     int
+	ttls        int
+	csrfAges    int
+	oldDied     bool
+	jitter      bool
+	reval       bool // the response re-issued the credential after a provider re-validation (no grant)
+	revalCred   bool // the credential presented was issued by such a re-validation
+	formStale   bool // form session past the refresh period: the provider has nothing to validate it by
+	legacyStale bool // no cookie lifetime, no expiry from the provider, past the refresh period
 }
 
 func (r *c09Res) String() string {
 	s := fmt.Sprintf("%s@%gs", r.Op, float64(r.NowMs)/1000)
 	if r.Class != "advance" {
-		s += fmt.Sprintf("[cred=%d served=%v status=%d issued=%d grants=%d %s%s]", r.Presented, r.Served, r.Status, r.Issued, r.Grants, r.Class, r.Detail)
+		v := ""
+		if r.Vals > 0 {
+			v = fmt.Sprintf(" validations=%d", r.Vals)
+		}
+		s += fmt.Sprintf("[cred=%d served=%v status=%d issued=%d grants=%d%s %s%s]", r.Presented, r.Served, r.Status, r.Issued, r.Grants, v, r.Class, r.Detail)
 	}
 	for _, f := range r.Fails {
 		s += " FAIL:" + f.Key
@@ -304,7 +335,8 @@ type c09World struct {
 	creds   []*c09Cred
 	secrets map[string][]byte // Redis: ticket id -> ticket secret, from the credentials seen
 	// model of the server-side session (Redis store only)
-	sessT      int64 // last login / provider-granted refresh
+	sessT      int64 // last login / provider-granted refresh / re-validation that re-issued the credential
+	sessT0     int64 // last login / provider-granted refresh (the reading in which a re-validation is no refresh)
 	sessTokExp int64
 	fwd        int64 // forward time the store has seen since then (store time never runs back)
 	ended      bool  // a presented credential was refused: the server may have dropped the entry
@@ -317,8 +349,9 @@ func c09NowMs() int64 { return world.Offset().Milliseconds() }
 // unix-domain socket, and the upstream is the proxy's own static upstream, so that the tens of
 // thousands of worlds of a run consume no TCP ports.
 type c09Env struct {
-	seed  int64
-	redis *world.Redis
+	seed     int64
+	redis    *world.Redis
+	htpasswd string // the htpasswd file of the form configurations (written once per process)
 }
 
 func (e *c09Env) close() {
@@ -329,6 +362,15 @@ func (e *c09Env) close() {
 }
 
 func c09NewWorld(g c09Cfg, e *c09Env) *c09World {
+	w, err := c09TryWorld(g, e)
+	if err != nil {
+		panic(fmt.Sprintf("c09: %s: %v", g, err))
+	}
+	return w
+}
+
+// c09TryWorld returns an error for a configuration validation rejects.
+func c09TryWorld(g c09Cfg, e *c09Env) (*c09World, error) {
 	world.ClearAdvanceHooks()
 	world.ResetClock()
 	world.SeedRandom(e.seed, 0)
@@ -348,8 +390,12 @@ func c09NewWorld(g c09Cfg, e *c09Env) *c09World {
 			}}
 		}
 	}
-	cfg := &ProxyCfg{Flags: append(baseFlags("static://200"), "--email-domain=*", "--cookie-secure=false",
+	cfg := &ProxyCfg{Flags: append(g.providerFlags("static://200"), "--email-domain=*", "--cookie-secure=false",
 		fmt.Sprintf("--cookie-expire=%ds", g.Expire), fmt.Sprintf("--cookie-refresh=%ds", g.Refresh))}
+	g.moreWorld(idp, cfg)
+	if g.Form {
+		cfg.Flags = append(cfg.Flags, "--htpasswd-file="+e.htpasswdFile(), "--display-htpasswd-form=true")
+	}
 	if g.ExpireNS > 0 {
 		cfg.Flags = append(cfg.Flags, fmt.Sprintf("--cookie-expire=%dns", g.ExpireNS))
 	}
@@ -364,11 +410,14 @@ func c09NewWorld(g c09Cfg, e *c09Env) *c09World {
 		}
 		cfg.Redis = e.redis
 	}
-	px := mustProxy(cfg)
+	px, err := buildProxy(cfg)
+	if err != nil {
+		return nil, err
+	}
 	w := &c09World{g: g, idp: idp, px: px, b: newBrowser(px, "http", c09Host), secrets: map[string][]byte{}}
 	w.name = px.Opts.Cookie.Name
 	w.nameRE = regexp.MustCompile("^" + regexp.QuoteMeta(w.name) + `(_\d+)?$`)
-	return w
+	return w, nil
 }
 
 func (w *c09World) close() {
@@ -388,14 +437,28 @@ func (w *c09World) find(hdr string) int {
 }
 
 func (w *c09World) fail(r *c09Res, key, format string, a ...any) {
-	r.Fails = append(r.Fails, c09Fail{Key: "C09/" + key + ":" + w.g.store(), Msg: fmt.Sprintf(format, a...)})
+	r.Fails = append(r.Fails, c09Fail{Key: "C09/" + w.g.keyPrefix() + key + ":" + w.g.store(), Msg: fmt.Sprintf(format, a...)})
 }
 
-// login runs the authorization-code flow in the browser.
+// login runs the authorization-code flow in the browser (or fills in the sign-in form).
 func (w *c09World) login() (*c09Res, error) {
 	res := &c09Res{Op: "login", NowMs: c09NowMs(), Presented: -1, Issued: -1, Class: "login"}
 	r0 := 0
-	resp, _, err := w.b.Login(w.idp, "alice", c09Page)
+	var resp *world.Resp
+	var err error
+	if w.g.Form {
+		resp = w.formLogin()
+	} else {
+		// start -> provider -> callback, as Browser.Login does; the start response carries the CSRF cookie
+		var start *world.Resp
+		var loginURL, cb string
+		if start, loginURL, err = w.b.Start(c09Page); err == nil {
+			w.observeCSRF(res, start)
+			if cb, _, err = w.idp.Authorize(loginURL, "alice"); err == nil {
+				resp = w.b.Callback(cb)
+			}
+		}
+	}
 	if err != nil {
 		return res, err
 	}
@@ -462,6 +525,13 @@ func (w *c09World) request(o c09Op) *c09Res {
 		if c.Endpoint == "token" && c.Status != 200 {
 			res.TokenFail++
 		}
+		if c.Endpoint == "validate" {
+			if c.Status == 200 {
+				res.Vals++
+			} else {
+				res.TokenFail++
+			}
+		}
 	}
 	if resp.Panic != nil {
 		w.fail(res, "panic@"+resp.PanicSite(), "request handling panicked: %v", resp.Panic)
@@ -497,34 +567,61 @@ func (w *c09World) judge(res *c09Res, o c09Op) {
 	future := func(t int64) bool { return E > 0 && t-now >= c09FutureMs+1000 }
 	alive := func(t int64) bool { return (E == 0 || now-t <= E-1000) && t-now <= c09FutureMs-1000 }
 
-	// reading 1: the credential's own issue time
-	rejExp, rejFut, serve := expired(c.T), future(c.T), alive(c.T)
+	// reading 1: the credential's own issue time. A credential re-issued after a provider
+	// re-validation (no grant) has two of them: the moment the proxy issued it (T: the re-validation
+	// counts as a refresh) and the issue time it inherited (T0 <= T: it does not). Refusal is demanded
+	// only where every reading refuses (expiry by T, the future rule by T0), service only where every
+	// reading serves.
+	rejExp, rejFut, serve := expired(c.T), future(c.T0), alive(c.T) && alive(c.T0)
+	if c.Set != c.T {
+		// re-issued without an event that starts a lifetime: the moment it was set is a third
+		// candidate for what its stamp says
+		serve = serve && alive(c.Set)
+	}
 	tokExp := c.TokExp
 	detail := fmt.Sprintf(" age=%gs", float64(now-c.T)/1000)
-	readingsDiffer := false
+	readingsDiffer := expired(c.T) != expired(c.T0) || future(c.T) != future(c.T0)
+	res.revalCred = c.T != c.T0
+	if c.T != c.T0 {
+		detail += fmt.Sprintf(" age-without-revalidations=%gs", float64(now-c.T0)/1000)
+	}
+	stale := c.T0
 	if w.g.Redis {
 		// reading 2 (server-side store): the ticket cookie only names the stored session, whose
 		// lifetime restarted at its last refresh. An alarm needs both readings to agree.
-		if expired(w.sessT) != rejExp || future(w.sessT) != rejFut {
+		if expired(w.sessT) != rejExp || future(w.sessT0) != rejFut || expired(w.sessT) != expired(w.sessT0) || future(w.sessT) != future(w.sessT0) {
 			readingsDiffer = true
 		}
-		rejExp, rejFut = rejExp && expired(w.sessT), rejFut && future(w.sessT)
+		rejExp, rejFut = rejExp && expired(w.sessT), rejFut && future(w.sessT0)
 		if (expired(c.T) || future(c.T)) && !(expired(w.sessT) || future(w.sessT)) {
 			// a pre-refresh ticket cookie past its own deadline while the refreshed session lives
 			res.oldDied = !res.Served
 		}
-		serve = serve && alive(w.sessT) && !w.ended && (E == 0 || w.fwd <= E-1000)
+		serve = serve && alive(w.sessT) && alive(w.sessT0) && !w.ended && (E == 0 || w.fwd <= E-1000)
 		tokExp = w.sessTokExp
 		detail += fmt.Sprintf(" session-age=%gs", float64(now-w.sessT)/1000)
+		if w.sessT != w.sessT0 {
+			detail += fmt.Sprintf(" session-age-without-revalidations=%gs", float64(now-w.sessT0)/1000)
+		}
+		stale = w.sessT0
 	} else if (rejExp || rejFut) && res.Presented < len(w.creds)-1 {
 		res.oldDied = !res.Served
 	}
+	// a session of the sign-in form holds nothing a provider could refresh or validate it by: once
+	// the refresh period has passed, whether it is kept is not a matter of this property
+	res.formStale = w.g.Form && w.g.Refresh > 0 && now-stale > int64(w.g.Refresh)*1000
+	// a provider whose token answer names no expiry: what the session's own expiry is without a
+	// cookie lifetime to borrow is not specified; it matters once the session is due for re-validation
+	res.legacyStale = w.g.Provider != "" && E == 0 && w.g.Refresh > 0 && now-stale > int64(w.g.Refresh)*1000
 	if tokExp-1500 <= now && now <= tokExp+500 {
 		// the token's expiry instant is computed on the real clock: not reproducible to the second
 		res.jitter = true
 	}
 	res.Detail = detail
 	res.ntKey = fmt.Sprintf("%s|%s|%d|%d", w.g, o.K, now-c.T, now-w.sessT)
+	if c.T != c.T0 || w.sessT != w.sessT0 {
+		res.ntKey += fmt.Sprintf("|%d|%d", now-c.T0, now-w.sessT0)
+	}
 	switch {
 	case rejExp || rejFut:
 		what := "expired"
@@ -533,7 +630,10 @@ func (w *c09World) judge(res *c09Res, o c09Op) {
 		}
 		res.Class = "must-reject-" + what
 		if res.Served {
-			if what == "expired" {
+			if what == "expired" && c.ByRefusal {
+				w.fail(res, "credential-set-by-refused-request-served-past-lifetime", "a credential the proxy set at %gs in a response that refused the session was honoured at %gs: %gs after the session was issued/last refreshed (%gs) with cookie-expire=%ds (status %d, served)",
+					float64(c.Set)/1000, float64(now)/1000, float64(now-c.T)/1000, float64(c.T)/1000, w.g.Expire, res.Status)
+			} else if what == "expired" {
 				w.fail(res, "expired-credential-served", "credential issued at %gs was honoured at %gs: %gs after issue/last refresh with cookie-expire=%ds (status %d, served)",
 					float64(c.T)/1000, float64(now)/1000, float64(now-c.T)/1000, w.g.Expire, res.Status)
 			} else {
@@ -541,7 +641,7 @@ func (w *c09World) judge(res *c09Res, o c09Op) {
 					float64(c.T)/1000, float64(now)/1000, float64(c.T-now)/1000, res.Status)
 			}
 		}
-	case o.K == "req" && serve && res.TokenFail == 0 && (now <= tokExp-2000 || res.Grants > 0):
+	case o.K == "req" && serve && !res.formStale && !res.legacyStale && res.TokenFail == 0 && (now <= tokExp-2000 || res.Grants > 0):
 		res.Class = "must-serve"
 		if !res.Served {
 			key := "valid-credential-rejected"
@@ -557,6 +657,10 @@ func (w *c09World) judge(res *c09Res, o c09Op) {
 		res.Class = "ambiguous-band"
 	case o.K != "req":
 		res.Class = "replay-no-converse"
+	case res.formStale:
+		res.Class = "form-session-past-refresh"
+	case res.legacyStale:
+		res.Class = "session-without-expiry-past-refresh"
 	default:
 		res.Class = "converse-suspended"
 	}
@@ -567,6 +671,8 @@ func (w *c09World) judge(res *c09Res, o c09Op) {
 func (w *c09World) observe(res *c09Res, resp *world.Resp, r0 int, login bool) {
 	now := res.NowMs
 	legit := login || res.Grants > 0
+	// a provider that cannot refresh vouched for the session by a call in this request
+	reval := !legit && res.Vals > 0 && res.TokenFail == 0
 	var parts []string
 	maxAge := 0
 	for _, ck := range resp.Cookies() {
@@ -603,7 +709,7 @@ func (w *c09World) observe(res *c09Res, resp *world.Resp, r0 int, login bool) {
 		}
 	}
 	if legit {
-		w.sessT, w.sessTokExp, w.fwd = now, now+int64(w.g.TokTTL)*1000, 0
+		w.sessT, w.sessT0, w.sessTokExp, w.fwd = now, now, w.tokExp(now), 0
 		if login {
 			w.ended = false
 		}
@@ -614,16 +720,28 @@ func (w *c09World) observe(res *c09Res, resp *world.Resp, r0 int, login bool) {
 	hdr := strings.Join(parts, "; ")
 	idx := w.find(hdr)
 	if idx < 0 {
-		c := &c09Cred{Hdr: hdr, T: now, TokExp: now + int64(w.g.TokTTL)*1000, Legit: legit, MaxAge: maxAge}
+		c := &c09Cred{Hdr: hdr, T: now, T0: now, TokExp: w.tokExp(now), Legit: legit, MaxAge: maxAge}
 		if !legit && res.Presented >= 0 {
 			// re-issued without a login or a provider-granted refresh: no new lifetime
-			c.T, c.TokExp = w.creds[res.Presented].T, w.creds[res.Presented].TokExp
+			p := w.creds[res.Presented]
+			c.T, c.T0, c.TokExp = p.T, p.T0, p.TokExp
+			if reval {
+				// ... unless the provider re-validated the session: under one reading of "issued or
+				// last refreshed" the credential the proxy issued then starts a lifetime of its own
+				c.T = now
+			}
 		}
 		c.Stamp = w.noteCred(hdr)
+		c.Set, c.ByRefusal = now, !login && !res.Served
 		w.creds = append(w.creds, c)
 		idx = len(w.creds) - 1
+		if reval && res.Presented >= 0 {
+			res.reval = true
+			w.sessT = now
+		}
 	} else if legit {
-		w.creds[idx].T, w.creds[idx].TokExp, w.creds[idx].Legit = now, now+int64(w.g.TokTTL)*1000, true
+		w.creds[idx].T, w.creds[idx].T0, w.creds[idx].TokExp, w.creds[idx].Legit = now, now, w.tokExp(now), true
+		w.creds[idx].Set, w.creds[idx].ByRefusal = now, false
 	}
 	res.Issued = idx
 }
@@ -747,6 +865,9 @@ func (w *c09World) canon(hist []c09Op) string {
 	fmt.Fprintf(&b, "now=%d trail=%d setback=%v\n", c09NowMs(), c09Trailing(hist), sb)
 	if w.g.Redis {
 		fmt.Fprintf(&b, "model sessT=%d tokexp=%d fwd=%d ended=%v\n", w.sessT, w.sessTokExp, w.fwd, w.ended)
+		if w.sessT0 != w.sessT {
+			fmt.Fprintf(&b, "model sessT0=%d\n", w.sessT0)
+		}
 	}
 	var jar []string
 	for _, ck := range w.b.Jar.Cookies {
@@ -764,6 +885,12 @@ func (w *c09World) canon(hist []c09Op) string {
 	b.WriteString(strings.Join(jar, "\n"))
 	for i, c := range w.creds {
 		fmt.Fprintf(&b, "\ncred%d T=%d tokexp=%d legit=%v stamp=%s maxage=%d %s", i, c.T, c.TokExp, c.Legit, c.Stamp, c.MaxAge, w.credSummary(c))
+		if c.T0 != c.T {
+			fmt.Fprintf(&b, " T0=%d", c.T0)
+		}
+		if c.ByRefusal {
+			fmt.Fprintf(&b, " by-refusal@%d", c.Set)
+		}
 	}
 	if w.g.Redis {
 		var ks []string
@@ -869,7 +996,7 @@ func c09Main(c *Ctx) {
 	defer debug.SetGCPercent(debug.SetGCPercent(400))
 	quick := c.Quick()
 	depth := c09Depth(quick)
-	cfgs := c09Configs(quick)
+	cfgs := c09Admitted(c, c09Configs(quick), env)
 	c.Info["configurations"] = len(cfgs)
 	c.Info["depth_after_login"] = depth
 	alphaSizes := map[string]int{}
@@ -877,8 +1004,9 @@ func c09Main(c *Ctx) {
 
 	// determinism: the same history twice must give the same observations and the same state
 	// (every shard, on a different configuration)
-	{
-		g := cfgs[c.Shard%len(cfgs)]
+	// (every shard, on a different configuration from the front and one from the back of the list)
+	for _, gi := range []int{c.Shard % len(cfgs), len(cfgs) - 1 - c.Shard%len(cfgs)} {
+		g := cfgs[gi]
 		r := int64(g.Refresh+1) * 1000
 		probe := []c09Op{{K: "adv", D: r}, {K: "req"}, {K: "adv", D: 500}, {K: "old"}}
 		a, b := c09Run(g, probe, env), c09Run(g, probe, env)
@@ -934,6 +1062,7 @@ func c09Main(c *Ctx) {
 			}
 			c.Distinct("distinct_outcomes", fmt.Sprintf("%s|%v|%v|%d", r.Class, r.Served, r.Issued >= 0, r.Grants))
 		}
+		c09MoreRecord(c, g, r)
 		cs := c09Case{Cfg: g, Hist: hist}
 		for _, f := range r.Fails {
 			f := f
@@ -1019,8 +1148,10 @@ func c09Main(c *Ctx) {
 			frontier = next
 		}
 	}
+	c09LifetimeSweep(c, env)
 	c.Info["alphabet"] = alphaSizes
 	c.Info["units"] = unit
+	c09MoreInfo(c, cfgs)
 }
 
 func c09Post(c *Ctx) {
@@ -1038,6 +1169,7 @@ func c09Post(c *Ctx) {
 			c.Error("vacuous exploration: counter %s is zero", k)
 		}
 	}
+	c09MorePost(c)
 	if n := c.Counters["token_expiry_jitter_window"]; n > 0 {
 		c.Note("%d requests fell into the second in which the access token expires (instant computed on the real clock): their outcome is not reproducible to the second; they cannot fail", n)
 	}
@@ -1066,7 +1198,7 @@ func init() {
 	register(&checkDef{
 		id:    "C09",
 		level: "model_checking",
-		rule:  "breadth-first search over all operation histories (request from the jar, clock advances from the threshold-derived set incl. half-second and one setback, presenting the oldest / newest credential ever received by hand) up to the depth bound after a login, for every (cookie-expire, cookie-refresh) x store x provider-refresh-support x token-lifetime configuration; each history is replayed on a fresh world through the real handlers, states are de-duplicated on decrypted session contents, jar, store entries with TTL, provider state and clock offset; the lifetime model (reject at age >= expire or stamp >= 5min+1s in the future, serve the browser's own credential at age <= expire-1s, Max-Age and store TTL = expire at every issue) is evaluated on the last transition of every execution; non-trivial = a transition in which a credential was presented and the model demands a definite answer (must-serve / must-reject), distinct by configuration, operation, credential age and session age",
+		rule:  "breadth-first search over all operation histories (request from the jar, clock advances from the threshold-derived set incl. half-second and one setback, presenting the oldest / newest credential ever received by hand) up to the depth bound after a login, for every (cookie-expire, cookie-refresh) x store x provider-refresh-support x token-lifetime configuration; each history is replayed on a fresh world through the real handlers, states are de-duplicated on decrypted session contents, jar, store entries with TTL, provider state and clock offset; the lifetime model (reject at age >= expire or stamp >= 5min+1s in the future, serve the browser's own credential at age <= expire-1s, Max-Age and store TTL = expire at every issue) is evaluated on the last transition of every execution; non-trivial = a transition in which a credential was presented and the model demands a definite answer (must-serve / must-reject), distinct by configuration, operation, credential age and session age. The same search runs for sessions created by the htpasswd sign-in form, for a provider that cannot refresh and re-validates by a call (keycloak, --validate-url), for an identity provider whose ID-token time stamps lie 240 s behind / ahead of the proxy's clock, and for every cookie-refresh >= cookie-expire configuration validation admits (rejected ones are counted); a product lifetime {1s..10y} x cookie layout {one cookie, split session, ticket + store entry} x CSRF-cookie lifetime compares Max-Age of every cookie set and the TTL of every store entry with the configuration at login and at a refresh",
 		assumptions: []string{
 			"issue time of a credential = virtual time of the login or of the provider-granted refresh whose response set it; a session cookie re-issued without such an event inherits the issue time of the credential presented",
 			"the one-second bands [expire-1s, expire) and (5min-1s, 5min+1s) are ambiguous (sub-second truncation of the stamp) and cannot fail",
@@ -1075,6 +1207,9 @@ func init() {
 			"consecutive forward clock advances commute exactly; only non-decreasing runs are generated and the trailing advance is part of the state key",
 			"access-token and ID-token expiry are decided by dependencies on the real clock: probed with margins only (access token 24 h or 45 s, ID tokens valid for the whole run)",
 			"miniredis models Redis key expiry (FastForward in lock-step with the virtual clock)",
+			"provider without refresh: 'issued or last refreshed' leaves open whether a successful re-validation after which the proxy issues a new credential is a refresh; refusal is demanded once cookie-expire has elapsed since the proxy issued the credential presented in such a request (server-side store: and since it last issued one for the session), service only while cookie-expire counted from the login has not elapsed; in between: ambiguous. A credential set without login, grant or successful validation call (e.g. by a response that refused the request) inherits the issue time of the credential presented",
+			"a session of the sign-in form (no provider token) or of a provider whose token answer names no expiry under cookie-expire=0 may be refused once cookie-refresh has passed: early refusal is outside the property (counted)",
+			"the lifetime counts on the proxy's clock whatever iat / auth_time / nbf the provider's tokens carry",
 		},
 		shards: func(tier string) int { return 16 },
 		run:    func(c *Ctx) { concRunFor(c, "C09"); c09Main(c) },
